@@ -115,9 +115,11 @@ def run(chk, model_ok=True):
             if mode == "raw":
                 out = walks.run_raw(peer, kind, values.dotted(base), maxrep, wire, env)
             elif mode == "sync":
-                out = walks.run_sync(peer, kind, values.dotted(base), maxrep, wire, env)
+                # (sometimes the caller has just abandoned another GetBulk walk: its rows must not leak into this one)
+                out = walks.run_sync(peer, kind, values.dotted(base), maxrep, wire, env, pre=rng.random() < 0.15)
             else:
-                out = walks.run_async(peer, kind, values.dotted(base), maxrep, wire)
+                out = walks.run_async(peer, kind, values.dotted(base), maxrep, wire,
+                                      pre=("1.3.6.1.4.1.99999.7", 6, 2) if peer.kind != "v1" and rng.random() < 0.2 else None)
             n_walks += 1
             n_exch += len(out.requests)
             exp, ending = walks.expected_walk(kind, base, [to_oracle(r) for r in replies])
